@@ -389,6 +389,27 @@ func ruleN1(p *Prog, r *Report) {
 			}
 			rec(del.Block())
 			r.Decide(okGuard, R, cons, p.InstrPos(del), "index entry deleted, guarded only by tests on the detached id / the new value's id", "deletion of the index entry is "+why)
+			// overwrite with a caller-supplied value: the entry must survive when the new value is the same container
+			hasValueParam := false
+			for _, prm := range f.Params {
+				if typeName(prm.Type()) == "Value" {
+					hasValueParam = true
+				}
+			}
+			if hasValueParam {
+				dep := controlDependsOnValue(f, del.Block(), func(v ssa.Value) bool {
+					bo, ok := v.(*ssa.BinOp)
+					if !ok || (bo.Op != token.NEQ && bo.Op != token.EQL) {
+						return false
+					}
+					isNewID := func(x ssa.Value) bool {
+						c, ok := canon(x).(*ssa.Call)
+						return ok && calleeName(c) == "ValueID"
+					}
+					return (sameValue(bo.X, vid) && isNewID(bo.Y)) || (sameValue(bo.Y, vid) && isNewID(bo.X))
+				})
+				r.Decide(dep, R, "index-kept-for-same-child:"+p.Name(f), p.InstrPos(del), "the entry is deleted only if the new value is not the very container that was overwritten", "overwriting a child with itself deletes the index entry that was just registered: the child handle would silently lose its parent")
+			}
 		})
 	}
 	r.Floor(R, "detach sites in Array", 2, n)
